@@ -112,6 +112,18 @@ func run(c *mon.Ctx) {
 			c.Sample(map[string]any{"input": mon.B(append([]byte{}, x...)), "source": src, "viable_prefix": k, "expected_line": line, "expected_column": col})
 		}
 		enum := src == "enum256" || src == "enum39"
+		// long-lived instances that have seen all the earlier inputs (not for the bulk enumerations)
+		if !enum || n%16 == 0 {
+			for fi := range jsonfe.ReusedFEs {
+				fe := &jsonfe.ReusedFEs[fi]
+				pl := jsongen.Whole
+				if fe.Reader && n%2 == 0 {
+					pl = jsongen.Fixed(3)
+				}
+				planCount["frontend:reused-instance"]++
+				check(c, fe, x, pl, k, line, col)
+			}
+		}
 		for fi := range jsonfe.FEs {
 			fe := &jsonfe.FEs[fi]
 			if !fe.Reader || fe.Name == "oj.Load" {
